@@ -654,13 +654,33 @@ class AtLeast(puan.Proposition):
             # than full len of propositions, then this
             # is a mixed of both
             if len(compounds) < len(self.propositions):
-                compounds.append(
-                    AtLeast(
-                        value=self.value,
-                        propositions=atoms,
-                        sign=self.sign,
+                if self.value == 1 and all(map(lambda x: x.bounds.lower >= 0, atoms)):
+                    # none of the (non negative) atoms may be set,
+                    # so they can be negated as one group
+                    compounds.append(
+                        AtLeast(
+                            value=self.value,
+                            propositions=atoms,
+                            sign=self.sign,
+                        )
                     )
-                )
+                elif all(map(lambda x: x.bounds.lower >= 0 and x.bounds.upper <= 1, atoms)):
+                    # each boolean atom counts on its own and is
+                    # therefore negated on its own
+                    compounds.extend(
+                        map(
+                            lambda atom: AtLeast(
+                                value=1,
+                                propositions=[atom],
+                                sign=self.sign,
+                            ),
+                            atoms,
+                        )
+                    )
+                else:
+                    # integer atoms cannot be moved into a sum of
+                    # negated propositions, keep the exact complement
+                    return negated
 
             negated.propositions = list(
                 map(
